@@ -1,12 +1,15 @@
 //! Plain-HTTP forwarding: the real `into_forwarded` pair relayed by the real DuplexPipe between a scripted
 //! client (request body, partially accepting sink) and a scripted origin, under tokio's paused clock.
-//! in : [version (1|2|3), origin_closes (0|1)] method uri headers req_body origin_stream origin_sizes client_accepts
+//! in : [version (1|2|3), origin_closes (0|1), body_gap_ms, origin_delay_ms, repeat_last] method uri headers req_body origin_stream origin_sizes client_accepts
+//!        body_gap_ms  : (optional, default 0) the client's body chunks arrive this many ms apart
+//!        origin_delay_ms : (optional, default 0) the origin stays silent this long before its first piece
+//!        repeat_last  : (optional, default 0) the origin's last piece is sent this many more times (an origin that never stops)
 //!        headers      : flat [name_len, name..., value_len, value...]*
 //!        req_body     : flat [chunk_len, bytes...]*  followed by end of stream
 //!        origin_sizes : sizes of the pieces the origin's byte stream arrives in (1 ms apart); the rest follows as one piece
 //!        client_accepts : per write of the client-side sink, how many bytes it takes (>= 100000: all); exhausted = all
 //! out: [result 0 ok | 1 timed out | 2 error | 3 refused by into_forwarded] origin_received [interim statuses] [final status, eof flag]
-//!      headers client_body [client eof calls, origin eof calls]
+//!      headers client_body [client eof calls, origin eof calls] [bytes the origin's source handed out]
 use crate::util::*;
 use async_trait::async_trait;
 use bytes::Bytes;
@@ -31,19 +34,37 @@ struct Log {
 struct ChunkSource {
     chunks: Vec<Vec<u8>>,
     pos: usize,
-    spaced: bool,
+    /// ms slept before every chunk (cancel-safe: nothing is lost when the read is dropped while asleep)
+    gap: u64,
+    /// ms slept before the first chunk
+    delay: u64,
+    /// the last chunk is handed out this many more times
+    repeat_last: usize,
     ends: bool,
+    handed: Arc<Mutex<usize>>,
+    /// when the chunk being waited for is due (kept across cancelled reads)
+    due: Option<tokio::time::Instant>,
 }
 
 #[async_trait]
 impl VSource for ChunkSource {
     async fn read(&mut self) -> io::Result<VData> {
-        if self.spaced {
-            tokio::time::sleep(Duration::from_millis(1)).await;
+        if self.delay + self.gap > 0 {
+            let due = *self.due.get_or_insert(tokio::time::Instant::now() + Duration::from_millis(self.delay + self.gap));
+            tokio::time::sleep_until(due).await;
+            self.due = None;
+            self.delay = 0;
         }
         if self.pos < self.chunks.len() {
             self.pos += 1;
+            *self.handed.lock().unwrap() += self.chunks[self.pos - 1].len();
             return Ok(VData::Chunk(Bytes::from(self.chunks[self.pos - 1].clone())));
+        }
+        if self.repeat_last > 0 && !self.chunks.is_empty() {
+            self.repeat_last -= 1;
+            let c = self.chunks.last().unwrap().clone();
+            *self.handed.lock().unwrap() += c.len();
+            return Ok(VData::Chunk(Bytes::from(c)));
         }
         if self.ends {
             Ok(VData::Eof)
@@ -157,6 +178,9 @@ pub fn run(toks: Vec<Tok>) -> Vec<Tok> {
 fn run_inner(toks: Vec<Tok>) -> Vec<Tok> {
     let version = toks[0][0] as u8;
     let origin_closes = toks[0][1] == 1;
+    let body_gap = toks[0].get(2).copied().unwrap_or(0) as u64;
+    let origin_delay = toks[0].get(3).copied().unwrap_or(0) as u64;
+    let repeat_last = toks[0].get(4).copied().unwrap_or(0) as usize;
     let method = String::from_utf8_lossy(&bytes(&toks[1])).to_string();
     let uri = String::from_utf8_lossy(&bytes(&toks[2])).to_string();
     let headers = flat_pairs(&toks[3]);
@@ -187,12 +211,13 @@ fn run_inner(toks: Vec<Tok>) -> Vec<Tok> {
     let rt = tokio::runtime::Builder::new_current_thread().enable_all().start_paused(true).build().unwrap();
     rt.block_on(async move {
         let log = Arc::new(Mutex::new(Log::default()));
+        let handed = Arc::new(Mutex::new(0usize));
         let r = forwarded::exchange(
             Request { method, uri, version, headers },
-            Box::new(ChunkSource { chunks: body_chunks, pos: 0, spaced: false, ends: true }),
+            Box::new(ChunkSource { chunks: body_chunks, pos: 0, gap: body_gap, delay: 0, repeat_last: 0, ends: true, handed: Arc::new(Mutex::new(0)), due: None }),
             Box::new(Responder { log: log.clone(), accepts }),
             (
-                Box::new(ChunkSource { chunks: pieces, pos: 0, spaced: true, ends: origin_closes }),
+                Box::new(ChunkSource { chunks: pieces, pos: 0, gap: 1, delay: origin_delay, repeat_last, ends: origin_closes, handed: handed.clone(), due: None }),
                 Box::new(OriginSink(log.clone())),
             ),
             Duration::from_millis(1000),
@@ -204,6 +229,7 @@ fn run_inner(toks: Vec<Tok>) -> Vec<Tok> {
             Err(e) if e.starts_with("TimedOut") => 1,
             Err(_) => 2,
         };
+        let handed_out = *handed.lock().unwrap();
         let l = log.lock().unwrap();
         let mut h = vec![];
         let mut hs = l.headers.clone();
@@ -222,6 +248,7 @@ fn run_inner(toks: Vec<Tok>) -> Vec<Tok> {
             h,
             tok(&l.client_body),
             vec![l.client_eofs as u128, l.origin_eofs as u128],
+            vec![handed_out as u128],
         ]
     })
 }
